@@ -57,6 +57,9 @@ CHECKS = {
  "C16": ("exploration", "E2/E1", "exhaustive enumeration of every batch composition (all sequences over a sample pool up to a length) for the sample models and generated per-sample models, executed by the real Model.Run and compared row by row with the solo evaluation",
          "For 119 models (sample models; every 1- and 2-stage combination of per-sample operators; Conv 1-D/2-D; RNN/GRU/LSTM with/without states; the gru.onnx wrapping) EVERY batch over a pool of 3 (thorough 4) distinct samples of length 1..3 (1..4) - i.e. all batch sizes, permutations, sub-selections and repetitions up to the bound - is run; position i of each output must equal the output of evaluating that sample alone (N=1).",
          "Trusted: stacking / row extraction of the harness (ref.Concat / ref.Slice). Differential oracle: the implementation's own N=1 result, as the property states.", "DESIGN.md §3 C16"),
+ "C17": ("model_checking", "E4", "stateless model checking of the real Model.Run goroutines under a cooperative scheduler: depth-first enumeration of all schedules up to a preemption bound; hardware write trap (mmap/mprotect) on all Model-owned shared state; supplementary free-running and -race passes",
+         "Threads {Run(A);Run(B)} || {Run(B)} (|| {NewModelFromBytes;Run(A)}) on one shared Model are executed under a cooperative scheduler with scheduling points before GetOperator/Init/ValidateInputs/Apply of every node; ALL schedules with <= 2 (thorough 3) preemptions for 2 threads and <= 1 (2) for 3 threads are enumerated for 67 subjects covering every operator; each thread must return its solo result and the shared-state digest must never change. Independently, for 229 subjects the weights and proto slices are write-protected in an mmap arena: a single frozen execution per input proves Run performs no write (not even a transient one) to Model-owned shared state, for every schedule and any number of goroutines. Free-running 16-goroutine runs (and a -race build in thorough) cover intra-phase interference on state outside the arena by sampling only - stated as supplementary.",
+         "Trusted: the cooperative scheduler (exactly one thread runs; replay of a recorded schedule is checked to be deterministic), mprotect + debug.SetPanicOnFault. Not modelled: weak memory behaviours; interleavings inside one operator phase over package-level state (only the supplementary passes see those).", "DESIGN.md §3 C17"),
 }
 NA_REASON = "check not built yet in this session (see DESIGN.md §7 order of construction); decidable by bounded exhaustive exploration, to be claimed once its explorer exists"
 def main():
